@@ -260,7 +260,8 @@ def data_traces(rec):
         df2[K['dose']] = df2[K['dose']] * 3.0 + 0.5
         df2[K['time']] = df2[K['time']] + 0.125
         df2 = df2.iloc[::-1]
-        calls = [(df, present[0]), (df2, present[-1]), (df, present[-1])]
+        # (the default observable of a call is the first one of the frame of that call, whatever earlier calls on the figure selected)
+        calls = [(df, present[0]), (df2, present[-1]), (df, present[-1]), (df, None), (df2, None)]
         for cls in (chi.plots.PDTimeSeriesPlot, chi.plots.PDPredictivePlot, chi.plots.PKTimeSeriesPlot, chi.plots.PKPredictivePlot):
             fig = cls()
             pk = cls.__name__.startswith('PK')
@@ -273,7 +274,7 @@ def data_traces(rec):
                     fig.add_data(d_, **kw)
                 except Exception as ex:
                     return '%s: a further add_data(observable=%r) on the same figure raises %r' % (cls.__name__, o_, ex)
-                sub = d_[d_[K['obs']] == o_]
+                sub = d_[d_[K['obs']] == (d_[K['obs']].dropna().unique()[0] if o_ is None else o_)]
                 dd = d_[d_[K['dose']].notnull()]
                 for i_ in dict.fromkeys(sub[K['id']].tolist()):
                     rows_ = sub[sub[K['id']] == i_]
@@ -285,9 +286,9 @@ def data_traces(rec):
             got_dose = [([float(v) for v in tr.x], [float(v) for v in tr.y]) for tr in traces if not tr.showlegend]
             same = lambda a, b: len(a) == len(b) and all(x[0] == y[0] and np.allclose(x[1], y[1], equal_nan=True) and len(x[1]) == len(y[1]) for x, y in zip(a, b))
             if not same(got_meas, want_meas):
-                return '%s: after three add_data calls on one figure (second frame re-uses the ID labels) the measurement traces are %s, the rows are %s' % (cls.__name__, got_meas[:6], want_meas[:6])
+                return '%s: after five add_data calls on one figure (the last two with the default observable) (second frame re-uses the ID labels) the measurement traces are %s, the rows are %s' % (cls.__name__, got_meas[:6], want_meas[:6])
             if pk and not same(got_dose, want_dose):
-                return '%s: after three add_data calls on one figure (second frame re-uses the ID labels, other dose rows) the dose traces are %s, the dose rows are %s' % (cls.__name__, got_dose[:6], want_dose[:6])
+                return '%s: after five add_data calls on one figure (the last two with the default observable) (second frame re-uses the ID labels, other dose rows) the dose traces are %s, the dose rows are %s' % (cls.__name__, got_dose[:6], want_dose[:6])
         return None
     rec.native_check('traces.data', ['chi.plots._time_series.PDTimeSeriesPlot.add_data', 'chi.plots._time_series.PDPredictivePlot.add_data', 'chi.plots._time_series.PKTimeSeriesPlot.add_data',
                                      'chi.plots._time_series.PKPredictivePlot.add_data'], cases, one,
